@@ -423,6 +423,11 @@ impl VirtualSystem {
                 {
                     return Err(Errno::ENOTDIR);
                 }
+                if matches!(access, OfdAccess::WriteOnly | OfdAccess::ReadWrite)
+                    && matches!(inode.borrow().body, FileBody::Directory { .. })
+                {
+                    return Err(Errno::EISDIR);
+                }
                 if flags.contains(OpenFlag::Truncate)
                     && let FileBody::Regular { content, .. } = &mut inode.borrow_mut().body
                 {
